@@ -972,6 +972,13 @@ def run_history(ctx, rt, rng, n_ops, translate=True, mutate_alphabet=False):
                   "[Fe][C][C]", "[N+1][C][C][C][C][C]", "[O][=C][=O]", "[I][I][I]", "[SH5][C]", "[C][CH3]", "[C][NH3][C]",
                   "[PH4][F]", "[C][OH1][C]", "[C][ClH1][C]", "[NH4+1]", "[C][Branch1][C][SH4][O]"]
     probes_enc = ["CS(=O)(=O)C", "C[N+](C)(C)C", "ClC", "FP(F)(F)(F)F", "c1ccccc1", "[Fe]C"]
+    # translation calls that exercise more of the shared machinery: indices of 2 and 3 symbols, symbols outside the
+    # index alphabet (and nothing at all) in index positions, rings and branches, generated strings of this history
+    probes_dec += ["[C]" * 20 + "[Ring2][Ring1][C]", "[C]" * 40 + "[Branch2][Ring1][=Branch1]" + "[C]" * 25,
+                   "[C][C][C][C][Ring1][F][C]", "[C][C][C][Ring2][Cl]", "[C][C][Branch1]", "[C][C][C][=Ring3][Xx][N]",
+                   "[C]" * 300 + "[Ring3][Ring1][Ring1][=Branch2]", "[C][=C][Branch1][C][O][C][Ring1][Ring2].[N][#C]"]
+    probes_dec += gens.gen_stay_alive(rng, 10, 30)
+    probes_enc += ["C1" + "C" * 20 + "1", "C(" + "C" * 18 + ")N", "N[C@](C)(F)C(=O)O", "F/C=C/1CCCC\\1", "C1CC1.C#N"]
     for _ in range(n_ops):
         r = rng.random()
         if r < 0.10:
